@@ -103,13 +103,47 @@ const res = "svc"
 
 func addr(i int) string { return fmt.Sprintf("10.0.0.%d:80", i+1) }
 
-type node struct {
-	m         *model.Breaker
+// sched is one reading of a node's recycle schedule.
+type sched struct {
 	pending   bool   // scheduled for recycling
 	recycleAt uint64 // ms
 	recovered bool   // a request to the node completed successfully since it was scheduled (must be kept)
-	hadOK     bool   // completed at least one request successfully since it became known
-	checked   bool   // only the active recovery check succeeded since then (may be kept or recycled: both timers can be due at the same instant)
+}
+
+type node struct {
+	m *model.Breaker
+	// alts: the readings of the node's recycle schedule that are possible now. There is one until the rule is
+	// loaded again: the property does not say whether a load keeps the pending recycles or voids them (a node
+	// that is still ejected is then scheduled again by the next request that finds it so), so both readings are
+	// followed from there on, and the implementation has to agree with one of them whenever a node is gone.
+	alts  []sched
+	hadOK bool // completed at least one request successfully since it became known
+}
+
+func newNode(m *model.Breaker) *node { return &node{m: m, alts: []sched{{}}} }
+
+func (n *node) dedupe() {
+	out := n.alts[:0]
+	for _, a := range n.alts {
+		dup := false
+		for _, b := range out {
+			dup = dup || a == b
+		}
+		if !dup {
+			out = append(out, a)
+		}
+	}
+	n.alts = out
+}
+
+// nextRecycle returns the earliest pending recycle instant over the readings.
+func (n *node) nextRecycle() (at uint64, ok bool) {
+	for _, a := range n.alts {
+		if a.pending && (!ok || a.recycleAt < at) {
+			at, ok = a.recycleAt, true
+		}
+	}
+	return
 }
 
 func (P) Exec(c *harness.Case) *harness.Outcome {
@@ -177,9 +211,6 @@ func (P) Exec(c *harness.Case) *harness.Outcome {
 			if n := nodes[a]; n != nil {
 				// the retryer reports a successful zero-duration request to the node's breaker and marks it recovered
 				n.m.Complete(nowMs(), 0, false)
-				if n.pending {
-					n.checked = true
-				}
 			}
 		}
 		return ok
@@ -227,25 +258,6 @@ func (P) Exec(c *harness.Case) *harness.Outcome {
 			return false
 		}
 		now := nowMs()
-		for _, a := range sortedKeys(nodes) {
-			n := nodes[a]
-			if n.pending && now >= n.recycleAt {
-				n.pending = false
-				if n.recovered {
-					o.Probe("node_kept_after_success")
-					sawRecycleOrKeep = true
-					if _, ok := impl[a]; !ok {
-						o.Fail("C20.recovered-node-recycled", step, "node %s completed a request successfully after it was scheduled for recycling, yet it is no longer known %d ms later (recycle interval %d s)", a, now-(n.recycleAt-uint64(cfg.RecycleS)*1000), cfg.RecycleS)
-						return false
-					}
-				} else if _, ok := impl[a]; !ok {
-					o.Probe("node_recycled")
-					sawRecycleOrKeep = true
-					delete(nodes, a) // permitted removal
-				}
-				n.checked = false
-			}
-		}
 		for _, a := range sortedKeys(impl) {
 			if nodes[a] == nil {
 				o.Fail("C20.unknown-node", step, "node %s is known to the outlier module but never completed a request (or was recycled and not seen since)", a)
@@ -254,15 +266,44 @@ func (P) Exec(c *harness.Case) *harness.Outcome {
 		}
 		for _, a := range sortedKeys(nodes) {
 			n := nodes[a]
-			if _, ok := impl[a]; !ok {
-				if n.recovered || (!n.pending && n.hadOK) {
-					o.Fail("C20.node-vanished", step, "node %s completed requests successfully and is not awaiting recycling after a failure, yet it is no longer known (pending=%v recovered=%v)", a, n.pending, n.recovered)
-					return false
+			_, known := impl[a]
+			// the recycle timers that are due, per reading
+			permitted, dueRecovered := !n.hadOK, false
+			var dueAt uint64
+			for i := range n.alts {
+				al := &n.alts[i]
+				due := al.pending && now >= al.recycleAt
+				if due {
+					al.pending = false
+					if al.recovered {
+						dueRecovered, dueAt = true, al.recycleAt
+					}
 				}
-				// a node that never recovered may be dropped early: permitted, not demanded
-				o.Probe("node_recycled")
-				delete(nodes, a)
+				// a node that has not recovered since it was scheduled may be dropped, also early (permitted, not
+				// demanded); one that recovered, or that is not scheduled and has served requests, may not
+				if (due || al.pending) && !al.recovered {
+					permitted = true
+				}
 			}
+			n.dedupe()
+			if known {
+				if dueRecovered {
+					o.Probe("node_kept_after_success")
+					sawRecycleOrKeep = true
+				}
+				continue
+			}
+			if !permitted {
+				if dueRecovered {
+					o.Fail("C20.recovered-node-recycled", step, "node %s completed a request successfully after it was scheduled for recycling, yet it is no longer known %d ms later (recycle interval %d s)", a, now-(dueAt-uint64(cfg.RecycleS)*1000), cfg.RecycleS)
+				} else {
+					o.Fail("C20.node-vanished", step, "node %s completed requests successfully and is not awaiting recycling after a failure, yet it is no longer known (readings of its schedule: %+v)", a, n.alts)
+				}
+				return false
+			}
+			o.Probe("node_recycled")
+			sawRecycleOrKeep = true
+			delete(nodes, a)
 		}
 		return true
 	}
@@ -281,24 +322,24 @@ func (P) Exec(c *harness.Case) *harness.Outcome {
 			nr := *rule
 			br := *rule.Rule
 			nr.Rule, nr.RecycleIntervalS = &br, cfg.RecycleS
-			replaced := false
 			harness.Call(o, "C20.panic", step, func() {
-				var err error
-				if replaced, err = outlier.LoadRules([]*outlier.Rule{&nr}); err != nil {
+				if _, err := outlier.LoadRules([]*outlier.Rule{&nr}); err != nil {
 					o.Fail("C20.load-error", step, "%v", err)
 				}
 			})
 			if o.Failed() {
 				return o
 			}
-			if replaced {
-				// the recycle schedule belongs to the rule it was made under: with another rule in force, the
-				// pending recycles are void (a node that is still ejected is scheduled again, with the new
-				// interval, by the next request that finds it so) - a node that has served requests is not
-				// removed by the timer of a rule that is gone
+			{
+				// The property does not say what a load does to the recycles that are pending: kept (the
+				// schedule is the node's) or void (it was made under the replaced rule; a node that is still
+				// ejected is scheduled again, with the new interval, by the next request that finds it so).
+				// Both readings are followed from here on. (That a timer armed under a replaced rule must not
+				// act under the rule in force is C13's business and checked there.)
 				mu.Lock()
 				for _, n := range nodes {
-					n.pending, n.recovered, n.checked = false, false, false
+					n.alts = append(n.alts, sched{})
+					n.dedupe()
 				}
 				mu.Unlock()
 				o.Probe("rule_replaced_with_recycles_pending")
@@ -348,9 +389,12 @@ func (P) Exec(c *harness.Case) *harness.Outcome {
 			}
 			for _, a := range rejecting {
 				n := nodes[a]
-				if !n.pending {
-					n.pending, n.recovered, n.checked, n.recycleAt = true, false, false, now+uint64(cfg.RecycleS)*1000
+				for i := range n.alts {
+					if !n.alts[i].pending {
+						n.alts[i] = sched{pending: true, recycleAt: now + uint64(cfg.RecycleS)*1000}
+					}
 				}
+				n.dedupe()
 			}
 			mu.Unlock()
 			var e *base.SentinelEntry
@@ -421,9 +465,11 @@ func (P) Exec(c *harness.Case) *harness.Outcome {
 			rt := op.N
 			if op.M == 1 && !op.F && !cfg.Active {
 				mu.Lock()
-				if n := nodes[target]; n != nil && n.pending && n.recycleAt > nowMs()+op.N+1 && n.recycleAt-nowMs() < 100000 {
-					arm, raceAt = true, n.recycleAt
-					rt = n.recycleAt - 1 - nowMs()
+				if n := nodes[target]; n != nil {
+					if at, ok := n.nextRecycle(); ok && at > nowMs()+op.N+1 && at-nowMs() < 100000 {
+						arm, raceAt = true, at
+						rt = at - 1 - nowMs()
+					}
 				}
 				mu.Unlock()
 			}
@@ -441,7 +487,11 @@ func (P) Exec(c *harness.Case) *harness.Outcome {
 				// (the timers that fired meanwhile may have changed the target's situation)
 				mu.Lock()
 				n := nodes[target]
-				arm = n != nil && n.pending && n.recycleAt == raceAt && raceAt == nowMs()+1
+				arm = false
+				if n != nil {
+					at, ok := n.nextRecycle()
+					arm = ok && at == raceAt && raceAt == nowMs()+1
+				}
 				mu.Unlock()
 			}
 			harness.Call(o, "C20.panic", step, func() {
@@ -466,15 +516,18 @@ func (P) Exec(c *harness.Case) *harness.Outcome {
 			mu.Lock()
 			n := nodes[target]
 			if n == nil {
-				n = &node{m: model.NewBreaker(cfg.Rule)}
+				n = newNode(model.NewBreaker(cfg.Rule))
 				nodes[target] = n
 			}
 			n.m.Complete(done, rt, op.F)
 			if !op.F {
 				n.hadOK = true
-				if n.pending {
-					n.recovered = true
+				for i := range n.alts {
+					if n.alts[i].pending {
+						n.alts[i].recovered = true
+					}
 				}
+				n.dedupe()
 			}
 			mu.Unlock()
 			if !processTimers(step) {
